@@ -88,3 +88,75 @@ Proof.
   rewrite map_map. cbn [norm fst]. exact Hd.
 Qed.
 End CSR.
+
+(* ---------------- C02 / C12: the checksum may be spelled in any entry order and letter case ---------------- *)
+From PM Require Import Quals2 Quals3 Quals4 Final Refine More.
+Section CSP. Variable cfg : config.
+Hypothesis Hasc : tbl_ascii_ok cfg = true.
+Hypothesis Hksp : key_special_ascii cfg = true.
+Hypothesis Hck : valid_key cfg s_checksum = true.
+
+(* overwriting a present key: the list changes only in that value *)
+Lemma q_set_shape q k v w : QInv cfg q -> valid_key cfg k = true -> q_get cfg q k = Some v ->
+  exists pre post, q = pre ++ (lk k, v) :: post /\ q_set cfg q k w = pre ++ (lk k, w) :: post.
+Proof.
+  intros HQ Hk Hg. pose proof (q_get_spec cfg Hasc Hksp q k HQ Hk) as S. rewrite Hg in S. destruct S as (pre & post & E).
+  exists pre, post. split; [exact E|]. unfold q_set. destruct (q_insert cfg q k w) as [q'|] eqn:Ei.
+  - destruct (q_insert_shape cfg Hasc Hksp q k w q' HQ Ei) as (pre' & post' & E' & [E2|[old E2]]).
+    + exfalso. assert (Hin : In (lk k, v) (pre' ++ post')) by (rewrite <- E2, E; apply in_or_app; right; left; reflexivity).
+      pose proof (q_insert_inv cfg Hasc Hksp _ _ _ _ HQ Ei) as HQ'. rewrite E' in HQ'. apply (mid_key_absent cfg pre' (lk k) w post' HQ'). apply in_map_iff. exists (lk k, v). split; [reflexivity|exact Hin].
+    + destruct HQ as [Hs _]. destruct (sorted_key_unique q Hs _ _ _ _ _ _ _ E E2) as (-> & _ & ->). exact E'.
+  - exfalso. unfold q_insert, check_key in Ei. rewrite Hk in Ei. cbn [bind] in Ei. destruct (search cfg q _); discriminate.
+Qed.
+Lemma q_set_set q k v w1 w2 : QInv cfg q -> valid_key cfg k = true -> q_get cfg q k = Some v -> q_set cfg (q_set cfg q k w1) k w2 = q_set cfg q k w2.
+Proof.
+  intros HQ Hk Hg. destruct (q_set_shape q k v w1 HQ Hk Hg) as (pre & post & E & E1). destruct (q_set_shape q k v w2 HQ Hk Hg) as (pre2 & post2 & E' & E2).
+  destruct HQ as [Hs Hc]. destruct (sorted_key_unique q Hs _ _ _ _ _ _ _ E E') as (<- & _ & <-).
+  assert (HQ1 : QInv cfg (q_set cfg q k w1)) by (apply (q_set_inv cfg Hasc Hksp); split; assumption).
+  assert (Hg1 : q_get cfg (q_set cfg q k w1) k = Some w1).
+  { apply (q_get_iff cfg Hasc Hksp _ k w1 HQ1 Hk). rewrite E1. apply in_or_app. right. left. reflexivity. }
+  destruct (q_set_shape (q_set cfg q k w1) k w1 w2 HQ1 Hk Hg1) as (pre3 & post3 & E3 & E4).
+  rewrite E1 in E3. destruct HQ1 as [Hs1 _]. rewrite E1 in Hs1. destruct (sorted_key_unique _ Hs1 _ _ _ _ _ _ _ eq_refl E3) as (<- & _ & <-).
+  rewrite E4, E2. reflexivity.
+Qed.
+Lemma q_set_get q k w k' : QInv cfg q -> valid_key cfg k = true -> valid_key cfg k' = true ->
+  q_get cfg (q_set cfg q k w) k' = if beqs (lk k') (lk k) then Some w else q_get cfg q k'.
+Proof.
+  intros HQ Hk Hk'. unfold q_set. destruct (q_insert cfg q k w) as [q'|] eqn:Ei.
+  - destruct (beqs (lk k') (lk k)) eqn:Eb.
+    + apply beqs_true in Eb. rewrite <- (q_get_case_insensitive cfg Hasc Hksp q' k k' (q_insert_inv cfg Hasc Hksp _ _ _ _ HQ Ei) Hk Hk' (eq_sym Eb)).
+      exact (q_get_insert_same cfg Hasc Hksp q k w q' HQ Ei).
+    + apply (q_get_insert_other cfg Hasc Hksp q k w q' k' HQ Ei Hk'). intros E. rewrite E in Eb. rewrite (proj2 (beqs_true _ _) eq_refl) in Eb. discriminate.
+  - exfalso. unfold q_insert, check_key in Ei. rewrite Hk in Ei. cbn [bind] in Ei. destruct (search cfg q _); discriminate.
+Qed.
+Lemma nonempty_set q k v w : QInv cfg q -> valid_key cfg k = true -> q_get cfg q k = Some v -> v <> [] -> w <> [] ->
+  nonempty_quals (q_set cfg q k w) = q_set cfg (nonempty_quals q) k w /\ q_get cfg (nonempty_quals q) k = Some v.
+Proof.
+  intros HQ Hk Hg Hv Hw.
+  assert (HQn : QInv cfg (nonempty_quals q)) by (apply QInv_filter; exact HQ).
+  assert (Hne : forall x : bytes, x <> [] -> negb (is_empty x) = true) by (intros [|? ?] Hx; [contradiction Hx; reflexivity|reflexivity]).
+  assert (Hgn : q_get cfg (nonempty_quals q) k = Some v).
+  { unfold nonempty_quals. rewrite (q_get_retain cfg Hasc Hksp _ q k HQ Hk), Hg, (Hne v Hv). reflexivity. }
+  split; [|exact Hgn].
+  apply (C11_canon cfg Hasc Hksp); [apply QInv_filter; apply (q_set_inv cfg Hasc Hksp); exact HQ|apply (q_set_inv cfg Hasc Hksp); exact HQn|].
+  intros k' Hk'. unfold nonempty_quals at 1. rewrite (q_get_retain cfg Hasc Hksp _ _ k' (q_set_inv cfg Hasc Hksp _ _ _ HQ) Hk').
+  rewrite (q_set_get q k w k' HQ Hk Hk'), (q_set_get (nonempty_quals q) k w k' HQn Hk Hk').
+  destruct (beqs (lk k') (lk k)); [rewrite (Hne w Hw); reflexivity|]. unfold nonempty_quals. rewrite (q_get_retain cfg Hasc Hksp _ q k' HQ Hk'). reflexivity.
+Qed.
+(* two builds that differ only in how the checksum is spelled (entry order, hex case) give the same PURL - string shape *)
+Theorem build_checksum_spelling t p v1 v2 m1 m2 : QInv cfg (p_quals p) -> q_get cfg (p_quals p) s_checksum = Some v1 -> v1 <> [] -> v2 <> [] ->
+  cs_try_from cfg v1 = Ok m1 -> cs_try_from cfg v2 = Ok m2 -> NoDup (map fst m1) -> Permutation (map norm m1) (map norm m2) ->
+  build cfg (string_shape cfg) t (with_quals p (q_set cfg (p_quals p) s_checksum v2)) = build cfg (string_shape cfg) t p.
+Proof.
+  intros HQ Hg H1 H2 E1 E2 Hd HP. unfold build. cbn [sh_finish string_shape]. unfold str_finish. destruct (valid_type cfg t); [|reflexivity].
+  cbn [p_name with_quals p_quals]. destruct (is_empty (p_name p)); [reflexivity|].
+  destruct (nonempty_set (p_quals p) s_checksum v1 v2 HQ Hck Hg H1 H2) as [En Egn]. fold (nonempty_quals (q_set cfg (p_quals p) s_checksum v2)). fold (nonempty_quals (p_quals p)).
+  rewrite En, Egn. assert (HQn : QInv cfg (nonempty_quals (p_quals p))) by (apply QInv_filter; exact HQ).
+  assert (Hg2 : q_get cfg (q_set cfg (nonempty_quals (p_quals p)) s_checksum v2) s_checksum = Some v2).
+  { destruct (q_set_shape _ s_checksum v1 v2 HQn Hck Egn) as (pre & post & _ & E). apply (q_get_iff cfg Hasc Hksp _ _ _ (q_set_inv cfg Hasc Hksp _ _ _ HQn) Hck). rewrite E. apply in_or_app. right. left. reflexivity. }
+  rewrite Hg2, E1, E2. rewrite <- (C12_same_entries m1 m2 Hd HP). destruct (cs_to_text m1) as [txt|]; [|reflexivity].
+  assert (Hi : forall q, q_insert cfg q s_checksum txt = Ok (q_set cfg q s_checksum txt)).
+  { intros q. unfold q_set. destruct (q_insert cfg q s_checksum txt) eqn:Ei; [reflexivity|]. exfalso. unfold q_insert, check_key in Ei. rewrite Hck in Ei. cbn [bind] in Ei. destruct (search cfg q _); discriminate. }
+  rewrite !Hi. rewrite (q_set_set _ s_checksum v1 v2 txt HQn Hck Egn). reflexivity.
+Qed.
+End CSP.
